@@ -32,9 +32,19 @@ ARR_NAMES = ["A", "B", "C", "D", "E", "F", "G", "H", "K", "M", "N", "P", "Q", "R
 def biased_program(rng):
     lines = []
     n = 10
-    names = rng.sample(ARR_NAMES, rng.randint(2, 8))
-    for nm in names:
-        s = nm + "$" if rng.random() < 0.4 else nm
+    if rng.random() < 0.5:
+        names = [nm + ("$" if rng.random() < 0.4 else "") for nm in rng.sample(ARR_NAMES, rng.randint(2, 8))]
+    else:
+        # families of look-alike names: one or two first letters, with and without digit / letter suffix, numeric and
+        # string variant of the same name together (whatever orders the declarations must separate all of them)
+        names = []
+        for base in rng.sample("ABCNXZ", rng.randint(1, 2)):
+            fam = [base] + [base + d for d in "0123456789"] + [base + c for c in "AZ"]
+            for nm in rng.sample(fam, rng.randint(3, 7)):
+                kinds = rng.choice([[""], ["$"], ["", "$"]])
+                names += [nm + k for k in kinds]
+        rng.shuffle(names)
+    for s in names:
         idx = [X.num(rng.randint(0, 3)) for _ in range(rng.choice([1, 1, 2]))]
         val = ("str", "X") if s.endswith("$") else X.num(1)
         lines.append((n, [("let", ("arr", s, idx), val, False)]))
